@@ -450,14 +450,20 @@ class simplify_chained_calls(FuncADLNodeTransformer):
         if type(call_node.func) is ast.Lambda:
             arg_asts = [self.visit(a) for a in call_node.args]
             kw_asts = [(k.arg, self.visit(k.value)) for k in call_node.keywords]
+            # The parameters get fresh names first: a name that is free in an argument must not
+            # be taken for a parameter of the same spelling when the result is visited again.
+            func = make_args_unique(call_node.func)
+            fresh = {
+                old.arg: new.arg for old, new in zip(call_node.func.args.args, func.args.args)
+            }
             with stack_frame(self._arg_stack):
-                for a_name, arg in zip(call_node.func.args.args, arg_asts):
+                for a_name, arg in zip(func.args.args, arg_asts):
                     self._arg_stack.define_name(a_name.arg, arg)
                 for k_name, arg in kw_asts:
                     if k_name is not None:
-                        self._arg_stack.define_name(k_name, arg)
+                        self._arg_stack.define_name(fresh.get(k_name, k_name), arg)
                 # Now, evaluate the expression, and then lift it.
-                return self.visit(call_node.func.body)
+                return self.visit(func.body)
         elif _is_method_call_on_first(call_node):
             return self.select_method_call_on_first(call_node)
         else:
